@@ -3,6 +3,7 @@ package main
 import (
 	"go/types"
 	"golang.org/x/tools/go/ssa"
+	"strings"
 )
 
 func init() { register("C06", rulesC06) }
@@ -29,6 +30,7 @@ func rulesC06(c *Ctx) {
 	c.Explain = append(c.Explain,
 		"C06 (finalized versions stay readable until pruned) — decided: in Prune and Finalize of BOTH backends every destructive operation (batch delete/flush, txn delete/commit, metadata setter/commit, discard-timestamp) is dominated on every CFG path by the acceptance guards, each identified by the sentinel error its failing side returns and by its normalised failing condition (operands resolved to parameters / metadata getters): only-finalized, only-earliest, never-the-last, no-multipart, not-read-only for Prune; not-already-finalized, previous-finalized, multipart-version for Finalize; lone-node deletions are guarded by the not-lone set; the same guard set is required of each backend; Commit refuses finalized versions; the ABCI pruner syncs the database (success edge) between pruning and advancing the retained height, and the retained height it reports is the field written there.",
 		"NOT decided: correctness of the lone-node computation for all candidate-root histories, resurrection through versioned keys, concurrent readers, identical answers of both backends for all histories.")
+	c06Discard(c)
 	const rule = "C06.guard"
 	api := "storage/mkvs/db/api."
 	for _, pk := range []string{"badger", "pathbadger"} {
@@ -175,4 +177,159 @@ func containsAll(s string, subs ...string) bool {
 		}
 	}
 	return true
+}
+
+// c06Discard: a candidate root that is not finalized is made absent by
+// Finalize: on every path from the "not finalized" branch to the next root of
+// the version, the root's own record (what HasRoot / checkRootExists consult)
+// is queued for deletion, and that queue is deleted. Otherwise the root is
+// still reported present while its nodes are gone or, with path-based node
+// keys, resolve to the finalized root's nodes (F12).
+func c06Discard(c *Ctx) {
+	const rule = "C06.discard"
+	// pathbadger: root record = rootNodeKeyFmt(version, hash), reached through the root iterator's item key
+	if fn := c.needFn(rule, "storage/mkvs/db/pathbadger.(*badgerNodeDB).Finalize"); fn != nil {
+		notFin := HeldEdges(fn, `^make\(map\[storage/mkvs/db/api\.TypedHash\]struct\{\}\)\[load\(alloc:\*storage/mkvs/db/api\.TypedHash\)\]#1 == false$`)
+		// the iterator over the version's roots: the one whose item key is decoded with rootNodeKeyFmt
+		var rootIt ssa.Value
+		for _, call := range findCalls(fn, "common/keyformat.(*KeyFormat).Decode") {
+			a := allArgs(call)
+			if !strings.Contains(vstr(a[0]), "rootNodeKeyFmt") {
+				continue
+			}
+			// a[1] = Item(it).Key()
+			if kc, ok := a[1].(*ssa.Call); ok {
+				if ic, ok := kc.Call.Args[0].(*ssa.Call); ok && len(ic.Call.Args) > 0 {
+					rootIt = ic.Call.Args[0]
+				}
+			}
+		}
+		var collect []ssa.Instruction
+		var collected ssa.Value
+		if rootIt != nil {
+			for _, call := range callsIn(fn) {
+				if calleeName(call) != "builtin.append" {
+					continue
+				}
+				for _, e := range variadicElems(call.Common().Args[len(call.Common().Args)-1]) {
+					kc, ok := e.(*ssa.Call)
+					if !ok || !strings.HasSuffix(calleeNameCommon(&kc.Call), "(*Item).KeyCopy") {
+						continue
+					}
+					if ic, ok := kc.Call.Args[0].(*ssa.Call); ok && len(ic.Call.Args) > 0 && ic.Call.Args[0] == rootIt {
+						collect = append(collect, call)
+						collected = call.Value()
+					}
+				}
+			}
+		}
+		var nexts []ssa.Instruction
+		for _, call := range callsIn(fn) {
+			if strings.HasSuffix(calleeName(call), "(*Iterator).Next") && len(call.Common().Args) > 0 && call.Common().Args[0] == rootIt {
+				nexts = append(nexts, call)
+			}
+		}
+		ok := rootIt != nil && len(notFin) > 0 && len(collect) > 0 && len(nexts) > 0 && Reach(fn, nil, notFin, anyOf(nexts), NewCut().AddInstr(collect...)) == nil
+		c.Check(ok, rule, fname(fn)+":non-finalized root⇒root record queued for deletion", c.P.Pos(fn.Pos()), "every root of the version that is not finalized has its root node key queued for deletion before the next root is examined", "a candidate root that is not finalized keeps its root node record: it is still reported as existing, and its path-based child pointers resolve to the finalized root's nodes")
+		// the queue is deleted
+		deleted := false
+		if collected != nil {
+			for _, call := range callsIn(fn) {
+				if !strings.HasSuffix(calleeName(call), "(*WriteBatch).Delete") {
+					continue
+				}
+				k := allArgs(call)[1]
+				for _, r := range Roots(k) {
+					if r.Val != nil && strings.Contains(vstr(r.Val), "(*Item).KeyCopy(") && strings.Contains(vstr(k), "builtin.append(") {
+						deleted = true
+					}
+				}
+				if u, ok := k.(*ssa.UnOp); ok {
+					if ia, ok := u.X.(*ssa.IndexAddr); ok {
+						if strings.Contains(vstr(ia.X), "builtin.append(") && phiIncludes(ia.X, collected, 0) {
+							deleted = true
+						}
+					}
+				}
+			}
+		}
+		c.Check(deleted, rule, fname(fn)+":queued root records are deleted", c.P.Pos(fn.Pos()), "the queued root node keys are deleted in the removal phase", "the queued root node keys of non-finalized roots are never deleted")
+	}
+	// badger: root record = entry of rootsMeta.Roots
+	if fn := c.needFn(rule, "storage/mkvs/db/badger.(*badgerNodeDB).Finalize"); fn != nil {
+		var dels []ssa.Instruction
+		for _, call := range callsIn(fn) {
+			if calleeName(call) == "builtin.delete" && strings.Contains(vstr(call.Common().Args[0]), "loadRootsMetadata(") && strings.HasSuffix(vstr(call.Common().Args[0]), ".Roots") {
+				dels = append(dels, call)
+			}
+		}
+		// second loop over rootsMeta.Roots: the edges where finalizedRoots[rootHash] is false
+		var notFin []Edge
+		for _, b := range fn.Blocks {
+			iff := lastIf(b)
+			if iff == nil {
+				continue
+			}
+			lk, ok := iff.Cond.(*ssa.Lookup)
+			if !ok || !strings.HasPrefix(vstr(lk.X), "make(map[storage/mkvs/db/api.TypedHash]bool)") {
+				continue
+			}
+			// only the lookup keyed by the range key of the pruning loop (not the derived-roots propagation)
+			if !strings.Contains(vstr(lk.Index), "next(range(") || strings.Contains(vstr(lk.Index), "#2[") {
+				continue
+			}
+			notFin = append(notFin, Edge{b, 1})
+		}
+		var nexts []ssa.Instruction
+		for _, b := range fn.Blocks {
+			for _, in := range b.Instrs {
+				if nx, ok := in.(*ssa.Next); ok && strings.Contains(vstr(nx.Iter), ".Roots") {
+					nexts = append(nexts, in)
+				}
+			}
+		}
+		ok := len(dels) > 0 && len(notFin) > 0 && len(nexts) > 0
+		if ok {
+			// from a not-finalized edge of the pruning loop the next root is reached only through the delete
+			found := false
+			for _, e := range notFin {
+				// the lookup of the loop that contains the delete (the pruning loop): the delete can come back to it
+				sameLoop := false
+				if iff := lastIf(e.From); iff != nil {
+					for _, d := range dels {
+						if Reach(fn, d, nil, isInstr(iff), nil) != nil && Reach(fn, nil, []Edge{e}, isInstr(d), nil) != nil {
+							sameLoop = true
+						}
+					}
+				}
+				if !sameLoop {
+					continue
+				}
+				found = true
+				if Reach(fn, nil, []Edge{e}, anyOf(nexts), NewCut().AddInstr(dels...)) != nil {
+					ok = false
+				}
+			}
+			ok = ok && found
+		}
+		c.Check(ok, rule, fname(fn)+":non-finalized root⇒roots metadata entry deleted", c.P.Pos(fn.Pos()), "every root of the version that is not finalized is removed from the roots metadata before the next root is examined", "a candidate root that is not finalized stays in the roots metadata: it is still reported as existing although its nodes are removed")
+	}
+}
+
+// phiIncludes: v is want, or a phi (transitively) having want among its edges.
+func phiIncludes(v, want ssa.Value, d int) bool {
+	if v == want {
+		return true
+	}
+	if d > 6 {
+		return false
+	}
+	if p, ok := v.(*ssa.Phi); ok {
+		for _, e := range p.Edges {
+			if phiIncludes(e, want, d+1) {
+				return true
+			}
+		}
+	}
+	return false
 }
